@@ -380,6 +380,36 @@ def run_check(prop, tier='quick', seed=None, replay=None):
                 sh(['git', 'checkout', '--'] + [os.path.relpath(p, ROOT) for p in touched], cwd=ROOT)
 
 
+def _classify_stage(mod, prop, findings, cases, impl, ms, viol, known, model_errors, opcount, widthcount, outcome, distinct,
+                    nontrivial):
+    for c, i, (m, s) in zip(cases, impl, ms):
+        toks = c.split(' ')
+        opcount[toks[0]] = opcount.get(toks[0], 0) + 1
+        if len(toks) > 1 and toks[1].isdigit() and len(toks[1]) <= 6:
+            widthcount[toks[1]] = widthcount.get(toks[1], 0) + 1
+        oc = i.split(' ')[0] if i else ''
+        oc = oc if oc in ('some', 'none', 'panic', 'err', 'ok', 'abort', 'timeout') else 'value'
+        outcome[oc] = outcome.get(oc, 0) + 1
+        if i in ('unsupported-width', 'bad-op') or m == 'bad-op':
+            model_errors.append((c, i, m, s))
+            continue
+        if nontrivial(c, i):
+            distinct.add(hashlib.blake2b(c.encode(), digest_size=8).digest())
+        k = classify(c, i, m, s)
+        if k is None:
+            continue
+        if k == 'model-error':
+            model_errors.append((c, i, m, s))
+            continue
+        tag = mod.finding_tag(c, i, m, s) if hasattr(mod, 'finding_tag') else None
+        f = findings.match(prop, tag) if tag else None
+        if f:
+            known.setdefault(tag, []).append((c, i, m, s))
+        else:
+            viol.append((k, c, i, m, s))
+
+
+
 def _run_check(prop, tier='quick', seed=None, replay=None):
     t0 = time.time()
     mod = importlib.import_module('props.' + prop.lower())
@@ -455,14 +485,10 @@ def _run_check(prop, tier='quick', seed=None, replay=None):
         if os.path.exists(cpath):
             cases += [l.strip() for l in open(cpath) if l.strip() and not l.startswith('#')]
         ncorpus = len(cases)
-        cases += list(mod.gen(rng, 'thorough' if (tier == 'thorough' or proof_broken) else 'quick'))
-    tr = time.time()
-    impl, hooks = run_impl(binpath, cases, timeout=getattr(mod, 'TIMEOUT', 900))
-    timings['impl_s'] = time.time() - tr
-    tr = time.time()
-    ms = run_model(drvpath, cases, impl)
-    timings['model_s'] = time.time() - tr
-
+        # a broken proof obligation turns the run into a search for a failing input: the quick generator first (a change that
+        # breaks a tie usually shows on ordinary inputs, and the report should not wait for the deep search), then the
+        # thorough generator if that found nothing
+        cases += list(mod.gen(rng, 'thorough' if tier == 'thorough' else 'quick'))
     viol = []          # (kind, case, impl, model, spec)
     known = {}
     model_errors = []
@@ -471,32 +497,30 @@ def _run_check(prop, tier='quick', seed=None, replay=None):
     outcome = {}
     distinct = set()
     nontrivial = getattr(mod, 'nontrivial', lambda c, i: True)
-    for c, i, (m, s) in zip(cases, impl, ms):
-        toks = c.split(' ')
-        opcount[toks[0]] = opcount.get(toks[0], 0) + 1
-        if len(toks) > 1 and toks[1].isdigit() and len(toks[1]) <= 6:
-            widthcount[toks[1]] = widthcount.get(toks[1], 0) + 1
-        oc = i.split(' ')[0] if i else ''
-        oc = oc if oc in ('some', 'none', 'panic', 'err', 'ok', 'abort', 'timeout') else 'value'
-        outcome[oc] = outcome.get(oc, 0) + 1
-        if i in ('unsupported-width', 'bad-op') or m == 'bad-op':
-            model_errors.append((c, i, m, s))
+    timings['impl_s'] = 0.0
+    timings['model_s'] = 0.0
+    all_cases = []
+    hooks = {}
+    stage_cases = cases
+    while True:
+        tr = time.time()
+        impl, hk = run_impl(binpath, stage_cases, timeout=getattr(mod, 'TIMEOUT', 900))
+        for k_, v_ in (hk or {}).items():
+            hooks[k_] = hooks.get(k_, 0) + v_ if isinstance(v_, (int, float)) else v_
+        timings['impl_s'] += time.time() - tr
+        tr = time.time()
+        ms = run_model(drvpath, stage_cases, impl)
+        timings['model_s'] += time.time() - tr
+        _classify_stage(mod, prop, findings, stage_cases, impl, ms, viol, known, model_errors, opcount, widthcount, outcome,
+                        distinct, nontrivial)
+        all_cases += stage_cases
+        real_found = any(v[0] in ('impl-violation', 'both-violate') for v in viol)
+        if proof_broken and not replay and tier != 'thorough' and not real_found and not model_errors and stage_cases is cases:
+            notes.append('proof obligation broken and the quick generator found no failing input: thorough generator run')
+            stage_cases = list(mod.gen(rng, 'thorough'))
             continue
-        if nontrivial(c, i):
-            distinct.add(hashlib.blake2b(c.encode(), digest_size=8).digest())
-        k = classify(c, i, m, s)
-        if k is None:
-            continue
-        if k == 'model-error':
-            model_errors.append((c, i, m, s))
-            continue
-        tag = mod.finding_tag(c, i, m, s) if hasattr(mod, 'finding_tag') else None
-        f = findings.match(prop, tag) if tag else None
-        if f:
-            known.setdefault(tag, []).append((c, i, m, s))
-        else:
-            viol.append((k, c, i, m, s))
-
+        break
+    cases = all_cases
     extra = {}
     if hasattr(mod, 'extra_checks') and not replay:
         # property-specific checks beyond the line protocol (compile probes etc.)
